@@ -515,12 +515,15 @@ func c19RandomRuns(in *c19HfInput, vio *c19Violator) error {
 			return c
 		}
 		var last *config.HardforkConfig
+		var accepted []*config.HardforkConfig
 		for step := 0; step < in.RunLen; step++ {
 			vio.res.Count(fmt.Sprintf("run|%d|%d", run, step))
 			if cs == nil { // down: try to start
 				c := randCfg(last)
 				if last != nil && rng.Intn(4) == 0 {
 					c = last
+				} else if len(accepted) > 1 && rng.Intn(3) == 0 { // the operator goes back to a configuration used earlier
+					c = accepted[rng.Intn(len(accepted))]
 				}
 				cdb, err = c19Open(store)
 				if err != nil {
@@ -532,6 +535,7 @@ func c19RandomRuns(in *c19HfInput, vio *c19Violator) error {
 					continue
 				}
 				cs, last = s, c
+				accepted = append(accepted, c)
 				// after the restart: every existing block keeps its version and its receipts
 				best := cdb.getBestBlockNo()
 				for no := uint64(1); no <= best; no++ {
